@@ -423,7 +423,7 @@ def gen_exchange(seed, opts=None):
     """Returns dict(reqs=[(wire, truth)], ress=[(wire, truth)], feats=set(), seed=seed)."""
     opts = opts or {}
     r = Rng(seed)
-    n = r.randint(1, opts.get('max_n', 3))
+    n = r.randint(opts.get('min_n', 1), opts.get('max_n', 3))
     feats = set()
     nonce = '%06x' % r.randrange(1 << 24)
     reqs, ress = [], []
